@@ -533,6 +533,12 @@ func findPrefixesCore(node *RegexNode, res *[]*bytes.Buffer, ignoreCase bool) bo
 		// As with One and loops, set loops are handled the same as sets up to the min iteration limit.
 		case NtSet, NtSetloop, NtSetlazy, NtSetloopatomic:
 
+			// GetSetChars lists the characters of a negated set too, but for a negated set
+			// they're the characters that don't match, which says nothing about a prefix.
+			if node.Set.IsNegated() {
+				return false
+			}
+
 			setChars := node.Set.GetSetChars(maxPrefixes)
 
 			if len(setChars) == 0 {
